@@ -63,7 +63,12 @@ def walk_checks(ctx, case, t1, t2, tree):
                                 at = parent[rel.param]
                                 # with repeated items the order-ignoring diff reports every index with the first equal object
                                 dup_ok = isinstance(parent, (list, tuple)) and any(x is child for x in parent) and strict_eq(at, child)
-                                if at is not child and not dup_ok:
+                                # report_repetition: an item repeated in t2 carries the t1 index on its t2-side relationship (by design:
+                                # 'we want the child_relationship_param2 only if there is no repetition'); it is still an item of the parent
+                                rep_ok = (side == 't2' and case['cfg'].get('report_repetition') and case['cfg'].get('ignore_order')
+                                          and isinstance(parent, (list, tuple)) and any(x is child for x in parent)
+                                          and sum(1 for x in parent if strict_eq(x, child)) >= 2)
+                                if at is not child and not dup_ok and not rep_ok:
                                     ctx.violate(case, '%s %s: %s node is not the sub-object parent[%r]' % (cat, leaf.path(), side, rel.param))
                             elif isinstance(parent, (set, frozenset)):
                                 if not any(x is child for x in parent):
